@@ -29,6 +29,7 @@ def run(ctx):
     ctx.rule("PYW-3", "threshold siblings store only values >= 1 and otherwise return Err(PyValueError(<the library's message>)); the constructor returns "
                       "Err(PyValueError(<the library's message>)) iff the list is empty")
     ctx.rule("PYW-4", "build returns the library's build(), passed through the escape rewriter iff the escape setting is on")
+    ctx.rule("PYW-5", "the escape-rewriting pattern consumes escaped backslashes by an alternative of its own, so that the backslash of a rewritten escape is never the second half of an escaped backslash")
     ctx.rule("PYW-2", "producer/consumer width agreement: every hex width the Rust side can emit in \\u{..} (2..6 digits for non-ASCII scalars, 4 for UTF-16 units) is matched by a "
                       "rewriting pattern whose replacement yields \\u + 4 or \\U + 8 hex digits")
     ctx.rule("PYI", "grex.pyi declares the same method names")
@@ -178,14 +179,47 @@ def widths(ctx, lib, rw):
         return
     producer = set(len("%x" % cp) for cp in (0x80, 0xFF, 0x100, 0xFFF, 0x1000, 0xFFFF, 0x10000, 0xFFFFF, 0x100000, 0x10FFFF)) | {4}
     consumed = {}
+    CORE = r"\\\\u\\\{\(\[0-9a-f(?:A-F)?\]\{(\d+)(?:,(\d+))?\}\)\\\}"
     for bi, t, pat, cb in consumers:
-        m = re.fullmatch(r"\\\\u\\\{\(\[0-9a-f(?:A-F)?\]\{(\d+)(?:,(\d+))?\}\)\\\}", pat or "")
-        if not m or cb is None:
+        branches = (pat or "").split("|")
+        cores = [(i, re.fullmatch(CORE, br)) for i, br in enumerate(branches)]
+        cores = [(i, mm) for i, mm in cores if mm]
+        others = [br for i, br in enumerate(branches) if i not in [c[0] for c in cores]]
+        if len(cores) != 1 or cb is None or "(" in "".join(others):
+            if cb is not None and re.search(CORE, pat or ""):
+                # the escape core is there, but wrapped in something this rule does not model (e.g. an optional prefix group): the pair guard below still applies
+                if "\\\\\\\\" not in (pat or "").split("|"):
+                    ctx.violation("PYW-5", (rw.path, "escaped backslash not consumed"),
+                                  "the rewriting pattern %r has no alternative that consumes an escaped backslash (`\\\\\\\\`): the second half of an escaped backslash can be taken for "
+                                  "the start of an escape (`\\\\u{3}`, the literal text \\uuu with its repetition converted, becomes \\\\u0003), and a guard on one preceding "
+                                  "backslash skips genuine escapes after an escaped backslash" % pat, rw.loc(t.get("line")))
+                    return
             ctx.undecided("PYW-2", rw.path, "cannot read rewriting pattern %r / its replacement" % pat, rw.loc(t.get("line")))
             return
+        m = cores[0][1]
+        # PYW-5: every other alternative is exactly an escaped backslash, and there is one
+        if any(br != "\\\\\\\\" for br in others):
+            ctx.undecided("PYW-2", rw.path, "the rewriting pattern %r has an alternative other than the escape and an escaped backslash" % pat, rw.loc(t.get("line")))
+            return
+        if not others:
+            ctx.violation("PYW-5", (rw.path, "escaped backslash not consumed"),
+                          "the rewriting pattern %r matches `\\u{h..}` wherever it occurs, also where the backslash is the second half of an escaped backslash: the library pattern "
+                          "`\\\\u{3}` (the literal text \\uuu with its repetition converted) is rewritten to `\\\\u0003`, which no longer matches the test case" % pat, rw.loc(t.get("line")))
+        else:
+            ctx.ok("PYW-5", rw.path + ":escaped backslashes are consumed by their own alternative", {"pattern": pat}, rw.loc(t.get("line")))
         lo, hi = int(m.group(1)), int(m.group(2) or m.group(1))
         caps = ccp.Sym("caps")
         leaves = ccp.Machine([lib]).run(cb, [ccp.Sym("env"), caps] if cb.kind == "closure" else [caps])
+        # paths on which the digits group did not take part (the escaped-backslash alternative matched): the match must be returned unchanged
+        absent = [l for l in leaves if any(re.match(r"^discr\(regex::Captures::get\(caps, 1\)\)$", a) and v in ("0", "not in [1]") for a, v in l.label)]
+        for l in absent:
+            txt = ccp.show(l.value) if l.value is not None else ""
+            if not (l.kind == "return" and re.fullmatch(r"`\{<regex::Captures as std::ops::Index<usize>>::index\(caps, 0\)\}`", txt)):
+                ctx.violation("PYW-2", (cb.path, "escaped backslash rewritten"), "when only the escaped-backslash alternative matched the replacer returns %s instead of the match itself" % txt[:80], cb.loc())
+        leaves = [l for l in leaves if l not in absent]
+        if others and not absent:
+            ctx.undecided("PYW-2", cb.path, "the replacer does not distinguish the escaped-backslash alternative from the escape", cb.loc())
+            return
         for w in range(lo, hi + 1):
             outs = []
             for l in leaves:
